@@ -179,11 +179,22 @@ class ToNNX(Module):
       for attr_name, value in nnx_attrs.items():
         if hasattr(self, attr_name) and isinstance(value, dict):
           original_tree = getattr(self, attr_name)
-          setattr(self, attr_name, original_tree | value)
+          setattr(self, attr_name, _recursive_merge(original_tree, value))
         else:
           setattr(self, attr_name, value)
 
     return out
+
+
+def _recursive_merge(original: dict, updates: dict) -> dict:
+  """Merges nested ``updates`` into ``original`` without dropping untouched entries."""
+  merged = dict(original)
+  for key, value in updates.items():
+    if isinstance(value, dict) and isinstance(merged.get(key), dict):
+      merged[key] = _recursive_merge(merged[key], value)
+    else:
+      merged[key] = value
+  return merged
 
 
 def linen_rngs_dict(linen_module: linen.Module) -> tp.Mapping[str, jax.Array]:
